@@ -12,7 +12,14 @@ import itertools
 import socket
 import ssl
 
-from vlib import cz, clist, cbool, cbytes, cnat
+from vlib import cz, clist, cbool, cnat
+
+
+def cbytes(bs):
+    """bytes -> list Z literal; plain numerals (the case files open Z_scope), much faster to parse
+    than one scope annotation per byte"""
+    bs = list(bs)
+    return "[" + "; ".join(str(int(b)) for b in bs) + "]" if bs else "(@nil Z)"
 
 LEVEL = "proof"
 
@@ -305,7 +312,7 @@ Definition obs (k : kind) (w : wcfg) (hrx htx : list Z) (s : st) : list (list Z)
 
 def c_obs(res):
     rows = [cbytes(res["accepted"]), cbytes(res["rxbs"]),
-            clist([cz(int(res["cutoff"])), cz(res["raises"]), cz(int(res["connected"]))], "Z"),
+            cbytes([int(res["cutoff"]), res["raises"], int(res["connected"])]),
             cbytes(res["wtx"]), cbytes(res["wrx"])]
     rows += [cbytes(d) for d in res["txes"]] + ["[(-1)%Z]"] + [cbytes(d) for d in res["delivered"]]
     return clist(rows, "(list Z)")
@@ -330,7 +337,7 @@ def small_scope(kind, maxm, maxlen):
                 ops = list(enq) + [("svctx", list(orc))]
                 if any(r[0] == "C" for r in orc) and kind != "KDriver":
                     ops.append(("uncut",))
-                ops.append(("svctx", [("S", 99)] * m))
+                ops.append(("svctx", [("S", 9)] * m))
                 yield ops
 
 
@@ -400,7 +407,7 @@ def random_ops(rng, kind):
             ops.append(("uncut",))
     ops.append(("uncut",))
     ops.append(("conn", True))
-    ops.append(("svctx", [("S", 99)] * 30))
+    ops.append(("svctx", [("S", 9)] * 30))
     return ops
 
 
@@ -415,8 +422,8 @@ def run(ctx):
     ctx.rule = ("op histories (tx / serviceTxes / serviceTxOnce / serviceReceives / serviceReceiveOnce / "
                 "connect flag / cutoff reset) with per-call send and recv oracles, run on the real Client, "
                 "ClientTls, Incomer, IncomerTls and Driver(DeviceNb) with socket / fd doubles and a buffified "
-                "WireLog, and on the Coq model; small scope = every queue of <=2 (quick) / <=3 (thorough) "
-                "messages of length <=2 x every first-pass result pattern over {Sent 0..len+1, block, "
+                "WireLog, and on the Coq model; small scope = every queue of <=2 messages of length <=3 (thorough: also <=3 "
+                "messages of length <=2) x every first-pass result pattern over {Sent 0..len+1, block, "
                 "cutoff, fail}; every recv-result sequence of length <=2 / <=3 over {chunk, chunk, EOF, block, cutoff, "
                 "fail}; plus seeded random long histories; non-trivial = at least one partial / zero / "
                 "block / cutoff result while data is queued; distinct by (class, wirelog config, history)")
@@ -429,10 +436,7 @@ def run(ctx):
         "propagating errors (outside the property's oracle alphabet) drop the popped message; modelled, "
         "covered by the correspondence, excluded from the exactly-once theorem by its premise",
     ]
-    import time
-    t0 = time.time()
     res = ctx.coq_build("C24/Props.v")
-    ctx.extra["t_build"] = round(time.time() - t0, 1)
 
     cases, metas = [], []
 
@@ -449,19 +453,24 @@ def run(ctx):
             c_obs(r)))
         metas.append((kind, wcfg, conn, ops, r))
 
-    maxm, maxlen = ctx.n((2, 2), (3, 2))
+    scopes = ctx.n([(2, 3)], [(2, 3), (3, 2)])
     for ki, kind in enumerate(KINDS):
-        for j, ops in enumerate(small_scope(kind, maxm, maxlen)):
-            wcfg = WCFGS[(j + ki) % 3] if kind != "KDriver" else WCFGS[0]
-            add(kind, wcfg, True, ops, "small")
+        seen = set()
+        for maxm, maxlen in scopes:
+            for j, ops in enumerate(small_scope(kind, maxm, maxlen)):
+                key = repr(ops)
+                if key in seen:
+                    continue
+                seen.add(key)
+                wcfg = WCFGS[(j + ki) % 3] if kind != "KDriver" else WCFGS[0]
+                add(kind, wcfg, True, ops, "small")
         for j, ops in enumerate(small_scope_rx(kind, ctx.n(2, 3))):
             wcfg = WCFGS[(j + ki) % len(WCFGS)] if kind != "KDriver" else WCFGS[0]
             add(kind, wcfg, True, ops, "small-rx")
-        for j in range(ctx.n(200, 2000)):
+        for j in range(ctx.n(600, 3000)):
             wcfg = WCFGS[j % len(WCFGS)] if kind != "KDriver" else WCFGS[0]
             add(kind, wcfg, ctx.rng.random() < 0.85, random_ops(ctx.rng, kind), "random")
 
-    ctx.extra["t_impl"] = round(time.time() - t0, 1)
     hdr = HEADER
     for hn, kind in (("c", "KClient"), ("i", "KIncomer")):
         hrx, htx = headers(kind)
@@ -472,7 +481,6 @@ def run(ctx):
         kind, wcfg, conn, ops, r = metas[i]
         ctx.tie_broken("correspondence", "C24 model vs %s" % kind,
                        "w=%r conn=%r ops=%r impl=%r" % (wcfg, conn, ops, {k: v for k, v in r.items() if k != "events"}))
-    ctx.extra["t_cases"] = round(time.time() - t0, 1)
     ctx.extra["mismatches"] = len(bad)
     ctx.exhaustive = False
 
